@@ -108,6 +108,36 @@ def parse_pattern(text, ignore_case_build=False):
     return ('exact', low(s), ins)
 
 
+def member_class(m, ignore_case_build=False):
+    """batching class of a key-list member, None = not batched"""
+    if m[0] != 's':
+        return None
+    try:
+        pk = parse_pattern(m[1], ignore_case_build)
+    except NotLoadable:
+        return None
+    if pk[0] == 'regex':
+        return ('re', pk[2])
+    if pk[0] in ('exact', 'contains', 'prefix', 'suffix'):
+        return ('needle', pk[2])
+    return None
+
+
+def batch_partition(members, ignore_case_build=False):
+    """-> index lists: members of one batching class together (at the position of the first), the others alone"""
+    out, where = [], {}
+    for i, m in enumerate(members):
+        c = member_class(m, ignore_case_build)
+        if c is None:
+            out.append([i])
+        elif c in where:
+            where[c].append(i)
+        else:
+            where[c] = [i]
+            out.append(where[c])
+    return out
+
+
 def _is_int(t):
     import re
     if not re.fullmatch(r'[+-]?\d+', t):
@@ -126,6 +156,10 @@ class Oracle:
         self.doc = doc
         self.icb = ignore_case_build
         self.excluded = []      # conditions under which the reference declines to say anything
+        # the recorded finding "quantifier:list-split-into-several-batches" as a semantics: when set, all(k)/of(k, n)
+        # counts the *batches* the loader split the list into (case-sensitive needles / case-insensitive needles /
+        # regexes with the same flag; every other member alone).  Only used to bound what that finding may explain.
+        self.batched = False
         # facade giving the trusted models access to the universe
         self.ex = engine.Engine(None, uni, [])
 
@@ -325,6 +359,12 @@ class Oracle:
                 pk = parse_pattern(m[1], self.icb)
                 if pk[0] not in ('inum', 'fnum'):
                     pats.append(pk)
+        if self.batched:
+            members = [t_or([self.pred(doc, field, val[1][i], None) for i in b]) if len(b) > 1 else self.pred(doc, field, val[1][b[0]], None)
+                       for b in batch_partition(val[1], self.icb)]
+            if mod == 'all':
+                return t_and(members)
+            return t_of(members, mod[1]) if len(members) > 1 else t_of_single(members[0], mod[1])
         if pats and len(pats) == len(val[1]) and len(pats) > 1:
             return self.string_quantifier(doc, field, pats, mod)
         members = [self.pred(doc, field, m, None) for m in val[1]]
